@@ -667,7 +667,8 @@ def run(ck):
 
     # ------------------------------------------------------------------ enc
     enc = Encoder()
-    pool = [s for s in short if len(s) <= 2] + rng.sample(short, min(len(short), 1500)) + mid[:1500] + longs[:600] + fixed
+    pool = ([s for s in short if len(s) <= 2] + rng.sample(short, min(len(short), 6000 if thorough else 600))
+            + mid[:600] + longs[:300] + fixed)
     cases, meta = [], []
     for s in pool:
         e = guard(enc.encode, s)
@@ -798,7 +799,9 @@ def run(ck):
         if not is_legal(s):
             continue
         add_ser(s, False, n % 2 == 0)
-        add_ser(s, True, n % 2 == 1)
+        # attribute position: every string of length <= 2, every 4th longer one (all of them in the thorough tier)
+        if thorough or len(s) <= 2 or len(s) > 3 or n % 4 == 0:
+            add_ser(s, True, n % 2 == 1)
         n += 1
     ck.sample({"group": "ser", "value": meta[2000]["value"], "raw": meta[2000]["raw"], "expat": meta[2000]["seen"]})
     eval_req("ser", cases, meta)
